@@ -98,6 +98,11 @@ def conditional_table():
         "Conditional(Gt(a, 2), t, Conditional(Or(Gt(b, 1.5), Lt(b, 10.0)), 0.1, c)) + 7.5", "Conditional(Or(Gt(b, 1.5), Lt(b, 10.0)), 0.1, c) * a",
         "Conditional(Gt(a, 2), t, Conditional(And(Gt(b, 10.0), Lt(b, 1.5)), 0.1, c)) + 7.5", "1 + Conditional(Lt(a, 1), Conditional(Or(Ge(b, 1), Lt(b, 1)), 2, 3), Conditional(And(Ge(c, 2), Lt(c, 2)), 4, 5))",
         "Conditional(Or(Ge(a, 1.5), Lt(b, 1.5), Lt(c, 10.0)), t, Conditional(Or(Gt(c, 1.5), Lt(c, 10.0)), 0.1, a)) + 7.5",
+        # time is a real number like any other: negative times
+        "abs(t) * a", "sqrt(t * t) + a", "Conditional(Lt(time, 0), a, b)", "Conditional(Ge(t, 0), a, b) * c", "abs(time - 5) * a", "sqrt(abs(t)) * a", "Conditional(Lt(t, -1), a, Conditional(Gt(t, 1), b, c))", "abs(t * a) - t",
+        # far on either side of a sharp switch (|z| > 709: exp overflows in float64, the weight is still 0 or 1)
+        "ContinuousConditional(Ge(a, b), 2, 3, 0.0005)", "ContinuousConditional(Ge(b, a), 2, 3, 0.0005)", "ContinuousConditional(Lt(a, b), c, p, 0.0005)", "ContinuousConditional(Lt(b, a), c, p, 0.0005)",
+        "ContinuousConditional(Ge(t, c * 5), 1, 0, 0.01) * a", "ContinuousConditional(Le(c * 5, t), 1, 0, 0.01) * a + b", "ContinuousConditional(Gt(a * 1000, b), a, b, 0.5)",
         "ContinuousConditional(Gt(a, -40), b, c, 0.05)", "ContinuousConditional(Lt(a, 40), b, c, 0.05)", "exp(a - 800.0) * exp(800.0 - b)",
     ]
     return out
